@@ -3,6 +3,7 @@ C06 — Flow identifiers keep concurrent flows apart.
 Theorems about `Code/Alloc.lean` (allocator, client-side table, dispatch by id).
 -/
 import SshuttleModel.Code.Alloc
+import SshuttleModel.Props.C07
 
 namespace Sshuttle.Alloc
 
@@ -230,6 +231,20 @@ theorem C06_fresh_before_wrap (max probes : Nat) (hp : 1 ≤ probes) (t : Table)
   have : ¬ (t.chani + 1 > max) := by omega
   simp [nextChannel, this, hfree]
 
+
+/-- **An allocated identifier fits the wire.**  With the code's own `MAX_CHANNEL` (read off the
+source on every run), whatever `next_channel` hands out is non-zero and fits the 16-bit header
+field: `Mux.send` accepts a frame on it, and the peer's decoder gives back exactly that
+identifier — the flow the peer sees is the flow the client opened, up to the last id of the space. -/
+theorem C06_allocated_id_fits_the_wire (occ : Nat → Bool) (k chani c ch : Nat)
+    (h : nextChannel Generated.MAX_CHANNEL occ k chani = (some c, ch))
+    (cmd : Nat) (hcmd : cmd < 65536) (data : Bytes) (hd : data.length ≤ 65535) :
+    c ≠ 0 ∧ (∃ tx', Mux.send {} (some c) cmd data = .ok tx') ∧
+    ∀ rest, Mux.decode1 (Mux.encode ⟨c, cmd, data⟩ ++ rest) = .frame ⟨c, cmd, data⟩ rest := by
+  obtain ⟨h1, h2, _, h4⟩ := C06_alloc_sound Generated.MAX_CHANNEL (by decide) occ k chani c ch h
+  have hmax : Generated.MAX_CHANNEL ≤ 65535 := by decide
+  refine ⟨by omega, ?_, fun rest => Mux.C07_roundtrip ⟨c, cmd, data⟩ rest⟩
+  exact (Mux.C07_send_iff {} c cmd data).mpr ⟨(by show c < 65536; omega), hcmd, hd⟩
 
 /-! ## The same histories with the clock: lazy expiry and refreshed UDP associations -/
 
